@@ -31,12 +31,12 @@ def idRule (rs : List Reg) (t : Option Nat) : Option Nat :=
     | .tid sink t' _ => if t' = t then some sink else none
     | _ => none
 
-/-- the first segment of a route code, and what is left after it (`None` when nothing) -/
-def segments (rc : Str) : Str × Option Str :=
-  match rc.span (· != '/') with
-  | (seg, []) => (seg, none)
-  | (seg, _ :: []) => (seg, none)
-  | (seg, _ :: c :: rest) => (seg, some (c :: rest))
+/-- the first segment of a route code (up to the first `/`), and what is left after that `/` (`None` when nothing) -/
+def segments : Str → Str × Option Str
+  | [] => ([], none)
+  | c :: cs =>
+    if c = '/' then ([], match cs with | [] => none | d :: ds => some (d :: ds))
+    else ((c :: (segments cs).1), (segments cs).2)
 
 /-- the one destination of an event: the rule of the first segment of its route code if there is one, else the
 rule of its test id, else the fallback, else none (the call raises); a consuming route rule strips that segment,
@@ -56,8 +56,13 @@ def flagged (hasFallback fbFlag : Bool) (rs : List Reg) : List Nat :=
     | .tid sink _ flag => if flag then some sink else none
 
 /-- is a run in progress after the operations `hist` -/
+def isCtl : Op → Bool
+  | .start => true
+  | .stop => true
+  | _ => false
+
 def inRun (hist : List Op) : Bool :=
-  match hist.reverse.find? (fun o => o == .start || o == .stop) with
+  match hist.reverse.find? isCtl with
   | some .start => true
   | _ => false
 
@@ -98,7 +103,7 @@ def cStartStop (i : Input) (t : Trace) : Bool :=
 
 def expectRes (hasFallback : Bool) (hist : List Op) : Op → Res → Bool
   | .status e, r => r == (if (destination hasFallback (regs hist) e).isSome then .ok else .raised "AttributeError")
-  | .roundTrip codes e, r => codes.any (·.contains '/') || e.route == some [] || r == .arrived e
+  | .roundTrip codes e, r => codes.any (fun c => c.contains '/' || c.isEmpty) || e.route == some [] || r == .arrived e
   | .start, r => r == .ok
   | .stop, r => r == .ok
   | _, _ => true
